@@ -140,6 +140,47 @@ func c04WriteOps(t reflect.Type) []c04Write {
 			do: func(op *gen.Operand, _ *tensor.Dense) (tensor.Tensor, error) { op.D.Zero(); return op.D, nil }},
 		{name: "Copy-into", content: func(m *model.ND) *model.ND { return nil },
 			do: func(op *gen.Operand, o *tensor.Dense) (tensor.Tensor, error) { return op.D, tensor.Copy(op.D, o) }},
+		// the source has the view's own layout (its clone keeps strides and storage window): a copy that takes a shortcut for
+		// "same access pattern" would write the gaps between the view's elements as well
+		{name: "Copy-into-from-same-layout", content: func(m *model.ND) *model.ND { return nil },
+			do: func(op *gen.Operand, o *tensor.Dense) (tensor.Tensor, error) {
+				src, ok := op.D.Clone().(*tensor.Dense)
+				if !ok {
+					return nil, fmt.Errorf("Clone did not return *Dense")
+				}
+				var serr error
+				model.Each([]int(op.D.Shape()), func(co []int, r int) {
+					v, e := o.At(co...)
+					if e == nil {
+						e = src.SetAt(v, co...)
+					}
+					if e != nil && serr == nil {
+						serr = e
+					}
+				})
+				if serr != nil {
+					return nil, serr
+				}
+				// poison the clone's gaps (storage positions that are not elements) so that copying them is visible
+				if raw := reflect.ValueOf(src.Data()); raw.Kind() == reflect.Slice && raw.Len() > len(op.Off) {
+					es := int(op.M.T.Size())
+					ws := 0
+					if es > 0 {
+						ws = int(op.D.Uintptr()-op.Root.Uintptr()) / es
+					}
+					isElem := map[int]bool{}
+					for _, off := range op.Off {
+						isElem[off-ws] = true
+					}
+					poison := gen.Canary(op.M.T, 1, 77)[0]
+					for i := 0; i < raw.Len(); i++ {
+						if !isElem[i] {
+							raw.Index(i).Set(reflect.ValueOf(poison))
+						}
+					}
+				}
+				return op.D, tensor.Copy(op.D, src)
+			}},
 		{name: "Neg-unsafe", numeric: true, do: func(op *gen.Operand, _ *tensor.Dense) (tensor.Tensor, error) {
 			return tensor.Neg(op.D, tensor.UseUnsafe())
 		}},
@@ -278,7 +319,7 @@ func c04Writes(c *core.Ctx, lay string, t reflect.Type, shape []int) {
 			c.Violation(core.Sig(w.name, lay, "view-and-parent-disagree"), caseKey, desc, "view reads parent memory", e.Error())
 			continue
 		}
-		if rd, ok := res.(*tensor.Dense); ok && rd != nil && rd != op.D && w.name != "Copy-into" {
+		if rd, ok := res.(*tensor.Dense); ok && rd != nil && rd != op.D && w.name != "Copy-into" && w.name != "Copy-into-from-same-layout" {
 			// the designated destination is the view; a different result tensor means the view was not the one written
 			if e := gen.ReadMatches(rd, cur); e != nil || !overlaps(rd, op.D) {
 				c.Violation(core.Sig(w.name, lay, "result-is-not-the-view"), caseKey, desc, "the view itself", fmt.Sprint(e))
@@ -288,7 +329,7 @@ func c04Writes(c *core.Ctx, lay string, t reflect.Type, shape []int) {
 		// 5. content for the writes whose meaning is C04's own
 		if w.content != nil {
 			want := w.content(op.M)
-			if w.name == "Copy-into" {
+			if w.name == "Copy-into" || w.name == "Copy-into-from-same-layout" {
 				want = om
 			}
 			if want != nil {
